@@ -576,6 +576,9 @@ def _failures(tname, v, tail, memo, path='$'):
             call(lambda: _lib_class(tname).deserialize(lib_from_rcell(bad).begin_parse()))
     cs = lc.begin_parse()
     ok, obj = call(_lib_class(tname).deserialize, cs)
+    if ok:
+        from harness.core import describe
+        describe(obj, lc, cs)                         # the caller logs what it got, the cell and the slice: nothing changes by that
     own = []                                          # failures attributed to this level unless a child explains them
     diff_fails = []
 
